@@ -10,6 +10,7 @@
 // For hm/tm/lm/xi/sh the operation is repeated with the k-th step of <kind> failing, k = 0,1,2,... until the
 // injection no longer fires; the line is the sequence of observed behaviours with consecutive duplicates removed.
 #include "c10_common.h"
+#include <momo/stdish/set.h>
 using namespace c10;
 
 static const size_t BC = 8;         // bucket count of the reserved source / destination hash sets (checked)
@@ -273,8 +274,8 @@ static std::string run_xi(const std::vector<std::string>& w)
 				typename HSet<E>::ExtractedItem ext = src.Extract(it);
 				try
 				{
-					auto res = dst.Insert(std::move(ext));
-					ins = res.inserted ? "ins" : "dup";
+					if (w[0] == "xa") { dst.Add(dst.Find(ext.GetItem()), std::move(ext)); ins = "ins"; }
+					else { auto res = dst.Insert(std::move(ext)); ins = res.inserted ? "ins" : "dup"; }
 				}
 				catch (...)
 				{
@@ -330,6 +331,84 @@ static std::string run_sh(const std::vector<std::string>& w)
 			kit::W().logging = false;
 			std::vector<int64_t> v; for (size_t i = 0; i < arr.GetCount(); ++i) v.push_back(arr[i].Value());
 			out = st + " count=" + std::to_string(arr.GetCount()) + " items=" + join(v) + " " + tr;
+			g_fired = f;
+		}
+		return out;
+	});
+}
+
+// ------------------------------------------------------------------------------------------- eh / hs (holder state machine, hinted node insert)
+//   eh <cat> <op> <op> ...      a real SetExtractedItem driven through an op sequence; after every op its mHasItem byte is printed
+//                               ops: c<v> Create(item v) | C<v> Create with a throwing creator | r Remove | R Remove with a throwing remover
+//                                    | x Clear | e IsEmpty        (sequences never violate the MOMO_CHECK preconditions)
+//   hs <cat> <kind> <hintpos> <hint_ok> <idx> <dst> <src>   stdish::set: extract the idx-th element of src, dst.insert(begin+hintpos, node)
+struct EhThrow {};
+template<int C>
+static std::string run_eh(const std::vector<std::string>& w)
+{
+	typedef LE<C> E;
+	typedef typename HSet<E>::ExtractedItem EI;
+	std::string out;
+	{
+		EI ei;
+		for (size_t i = 2; i < w.size(); ++i)
+		{
+			char op = w[i][0]; int64_t v = w[i].size() > 1 ? std::stoll(w[i].substr(1)) : 0;
+			std::string st = "S";
+			try
+			{
+				if (op == 'c') ei.Create([v] (E* p) { ::new(static_cast<void*>(p)) E(v); });
+				else if (op == 'C') ei.Create([] (E*) { throw EhThrow(); });
+				else if (op == 'r') ei.Remove([] (E& item) { item.~E(); });
+				else if (op == 'R') ei.Remove([] (E&) { throw EhThrow(); });
+				else if (op == 'x') ei.Clear();
+				else if (op == 'e') st = ei.IsEmpty() ? "empty" : "full";
+			}
+			catch (const EhThrow&) { st = "E"; }
+			if (!out.empty()) out += " ";
+			out += st + ":" + (ei.mHasItem ? "1" : "0");
+		}
+	}
+	std::string sum = kit::summary(); kit::W().errors.clear();
+	if (sum != "0 0 0") out += " LEAK(" + sum + ")";
+	return out;
+}
+template<int C>
+static std::string run_hs(const std::vector<std::string>& w)
+{
+	typedef LE<C> E;
+	typedef momo::stdish::set<E, KLess> Set;
+	int kind = kind_of(w[2]);
+	size_t hintpos = std::stoul(w[3]), idx = std::stoul(w[5]);
+	std::vector<int64_t> dstv = ints(w[6]), srcv = ints(w[7]);
+	return enumerate(kind, [&] (int kd, long k) -> std::string
+	{
+		std::string out;
+		{
+			Set src, dst;
+			for (int64_t v : srcv) src.insert(E(v));
+			for (int64_t v : dstv) dst.insert(E(v));
+			auto it = src.begin(); std::advance(it, idx);
+			auto hint = dst.begin(); std::advance(hint, hintpos);
+			kit::W().log.clear(); kit::W().logging = true;
+			arm_kind(kd, k);
+			std::string st = "S", hold = "none";
+			try
+			{
+				auto node = src.extract(it);
+				try { dst.insert(hint, std::move(node)); }
+				catch (...) { hold = node.empty() ? "none" : std::to_string(node.value().Value()); throw; }
+				hold = node.empty() ? "none" : std::to_string(node.value().Value());
+			}
+			catch (const std::bad_alloc&) { st = "Ea"; } catch (const kit::InjectedCopy&) { st = "Ec"; } catch (const kit::InjectedFunc&) { st = "Ef"; }
+			bool f = fired(kd);
+			kit::W().disarm();
+			kit::W().logging = false;
+			uint64_t nc = 0; for (auto& e : kit::W().log) if (e[0] == 'C' && (e[1] == ' ' || e[1] == 'A') && e[2] != 'o') ++nc;
+			std::vector<int64_t> dv; for (const auto& e : dst) dv.push_back(e.Value());
+			std::vector<int64_t> sv; for (const auto& e : src) sv.push_back(e.Value());
+			out = st + " src=" + join_sorted(sv) + " dst=" + join_sorted(dv) + " holder=" + hold;
+			if (E::movable) out += std::string(" copies=") + (nc == 0 ? "0" : "SOME");
 			g_fired = f;
 		}
 		return out;
@@ -548,7 +627,9 @@ static std::string dispatch(const std::vector<std::string>& w)
 	if (w[0] == "om") return run_om<C>(w[2], std::stol(w[3]), std::stoll(w[4]), std::stoll(w[5]));
 	if (w[0] == "hm") return run_hm<C>(w);
 	if (w[0] == "tm" || w[0] == "lm" || w[0] == "fm") return run_tm<C>(w);
-	if (w[0] == "xi") return run_xi<C>(w);
+	if (w[0] == "xi" || w[0] == "xa") return run_xi<C>(w);
+	if (w[0] == "eh") return run_eh<C>(w);
+	if (w[0] == "hs") return run_hs<C>(w);
 	if (w[0] == "ir") return run_ir<C>(w);
 	if (w[0] == "rp") return run_rp<C>(w);
 	if (w[0] == "sh") return run_sh<C>(w);
